@@ -528,11 +528,80 @@ func (w *World) shadowHelpers() map[*ssa.Function]bool {
 				restores = true
 			}
 		}
+		// … or returns a value of a struct type one of whose methods is the restorer
+		if !restores && fn.Signature.Results().Len() == 1 {
+			if w.restorerMethodOf(fn.Signature.Results().At(0).Type()) != nil {
+				restores = true
+			}
+		}
 		if restores {
 			out[fn] = true
 		}
 	}
 	return out
+}
+
+// restorerMethodOf: a method of the (struct) type that writes and deletes entries of the variable
+// map of a RenderContext held in the receiver — the restoring half of a shadow helper.
+func (w *World) restorerMethodOf(t types.Type) *ssa.Function {
+	n, ok := deref(t).(*types.Named)
+	if !ok || n.Obj().Pkg() == nil || n.Obj().Pkg().Path() != twigPath {
+		return nil
+	}
+	if _, isSt := n.Underlying().(*types.Struct); !isSt {
+		return nil
+	}
+	for _, fn := range w.pkgFuncs() {
+		rv := fn.Signature.Recv()
+		if rv == nil || !types.Identical(deref(rv.Type()), n) {
+			continue
+		}
+		upd, del := false, false
+		instrsOf(fn, func(in ssa.Instruction) {
+			if mu, ok := in.(*ssa.MapUpdate); ok {
+				if _, ok := fieldLoad(mu.Map, "RenderContext", "context"); ok {
+					upd = true
+				}
+			}
+			if c, ok := in.(*ssa.Call); ok {
+				if b, ok := c.Call.Value.(*ssa.Builtin); ok && b.Name() == "delete" {
+					if _, ok := fieldLoad(c.Call.Args[0], "RenderContext", "context"); ok {
+						del = true
+					}
+				}
+			}
+		})
+		if upd && del {
+			return fn
+		}
+	}
+	return nil
+}
+
+// shadowCallOfDefer: the call of a shadow helper whose restoring half the defer runs:
+// `defer ctx.shadow(name)()`, `r := ctx.shadow(name); defer r()`, or
+// `s := ctx.shadow(name); defer s.restore()`.
+func (w *World) shadowCallOfDefer(d *ssa.Defer, helpers map[*ssa.Function]bool) *ssa.Call {
+	if c, ok := unspill(d.Call.Value).(*ssa.Call); ok {
+		if f := c.Call.StaticCallee(); f != nil && helpers[f] && len(c.Call.Args) == 2 {
+			return c
+		}
+	}
+	if m := d.Call.StaticCallee(); m != nil && len(d.Call.Args) >= 1 {
+		if w.restorerMethodOf(d.Call.Args[0].Type()) == m {
+			recv := unspill(d.Call.Args[0])
+			if u, ok := recv.(*ssa.UnOp); ok {
+				// *(&local) of an address-taken struct local
+				recv = unspill(u)
+			}
+			if c, ok := recv.(*ssa.Call); ok {
+				if f := c.Call.StaticCallee(); f != nil && helpers[f] && len(c.Call.Args) == 2 {
+					return c
+				}
+			}
+		}
+	}
+	return nil
 }
 
 func checkLoopScope(w *World, r *Report) {
@@ -583,10 +652,8 @@ func checkLoopScope(w *World, r *Report) {
 				if !ok {
 					return false
 				}
-				if c, ok := unspill(d.Call.Value).(*ssa.Call); ok {
-					if f := c.Call.StaticCallee(); f != nil && helpers[f] && len(c.Call.Args) == 2 {
-						return c.Call.Args[0] == s.recv && sameNameValue(c.Call.Args[1], s.name)
-					}
+				if c := w.shadowCallOfDefer(d, helpers); c != nil {
+					return c.Call.Args[0] == s.recv && sameNameValue(c.Call.Args[1], s.name)
 				}
 				return false
 			}
@@ -707,10 +774,8 @@ func (w *World) shadowedByCallersAt(fn *ssa.Function, site ssa.Instruction, recv
 			if !ok {
 				return false
 			}
-			if c, ok := unspill(d.Call.Value).(*ssa.Call); ok {
-				if f := c.Call.StaticCallee(); f != nil && helpers[f] && len(c.Call.Args) == 2 {
-					return sameValue(c.Call.Args[0], ctxArg) && matches(c.Call.Args[1])
-				}
+			if c := w.shadowCallOfDefer(d, helpers); c != nil {
+				return sameValue(c.Call.Args[0], ctxArg) && matches(c.Call.Args[1])
 			}
 			return false
 		}
